@@ -8,7 +8,7 @@ HARNESS = dict(_m.HARNESS, args=['--prop', 'C05'])
 
 CONFIG = {
     'subs': ['Split', 'RecordIO', 'Wrap', 'TIter'],
-    'props_modules': ['DmlcModel.Props.C05', 'DmlcModel.Props.C05Witness'],
+    'props_modules': ['DmlcModel.Props.C05', 'DmlcModel.Props.C05Witness', 'DmlcModel.Props.C05Shuffle'],
     'driver': 'Split',
     'harness': HARNESS,
     'rule': 'cases = operation histories on one split object, always ending in a full drain. Exhaustive: every history of '
@@ -17,7 +17,10 @@ CONFIG = {
             '(text 1 file w=2, text 3 files w=1, recordio 2 files w=3), bare and behind SingleThreadedInputSplit (histories '
             'without bf/reset only up to length 2); random: histories of up to 40 ops on random text / recordio inputs, '
             'random (k,n) incl. k >= n. Oracle after each bf / reset: delivered canonical records = (prefix of) the stream of '
-            'a freshly constructed split for the same (k,n).',
+            'a freshly constructed split for the same (k,n). InputSplitShuffle (real files, 1-3 parts x 1-4 shuffle parts, text and '
+            'recordio): histories over {NextRecord, drain, BeforeFirst, ResetPartition}; the generator predicts every shuffle '
+            'order with its own mt19937 + std::shuffle; oracle: records after each call = the m sub-parts of the selected part '
+            'read through plain InputSplit::Create.',
     'assumptions': ['as C03 / C04 (size_t ranges: offsets < 2^64, total size < 2^62/2^63 where stated)',
                     'blob-for-blob equality with a fresh object is stated for equal buffer size (C05_reset, C05_beforeFirst, any '
                     'format, bare and behind SingleThreadedInputSplit); for the text format the canonical lines are additionally '
@@ -26,7 +29,9 @@ CONFIG = {
                     'the prefetching wrapper (ThreadedInputSplit) is covered by C10, not here',
                     'the theorems need fix C05-1 in the source (Gen items rpEmptyClears / bfEmptyClears = true, by rfl)'],
     'trusted_base': ['modelled by hand, tied by correspondence only: control flow of InputSplitBase, the two splitters and '
-                     'SingleThreadedInputSplit'],
+                     'SingleThreadedInputSplit; InputSplitShuffle (its NextRecord / NextChunk / BeforeFirst bodies are compared '
+                     'textually with the modelled shape on every run, Gen item shuffleShapeOk); the inner split of '
+                     'InputSplitShuffle is represented by its C05 / C10 contract'],
     'partial': [],
 }
 
